@@ -2,7 +2,7 @@
 import re
 
 from .. import builtins as B
-from ..analysis import strip_through
+from ..analysis import strip_through, success_edge
 from ..analysis import Branches, Origins, blocks_separate, edge_dominates, fmt_terms, reach_avoiding, closure_capture_origins
 from ..interp import CTX, DATA, INTERP, NODE, Interp
 
@@ -131,18 +131,10 @@ def check_runtime_flow(ctx, lib):
     rule = "runtime-flow"
     rc = ctx.fn("runtime::Runtime::compile", rule=rule)
     if rc is not None:
-        ok = False
-        for c in lib.closures_of("runtime::Runtime::compile"):
-            for bb, t in c.calls():
-                if t["callee"] == "Expression::<'a>::new":
-                    co = Origins(c, lib)
-                    a = [co.of_operand(x) for x in t["args"]]
-                    # third argument is the captured `self` of Runtime::compile (resolved through the
-                    # closure aggregate in the parent body, not by variable name)
-                    caps = closure_capture_origins(lib, rc, c.deff)
-                    ok = a[1] == {("param", 2)} and caps is not None and bool(a[2]) and \
-                        all(x[0] == "field" and x[1] == ("closure_env",) and str(x[2]).isdigit() and int(x[2]) < len(caps)
-                            and caps[int(x[2])] == {("param", 1)} for x in a[2])
+        ro = Origins(rc, lib)
+        news = [t for _, t in rc.calls() if t["callee"] == "Expression::<'a>::new"]
+        ok = len(news) == 1 and ro.of_operand(news[0]["args"][2]) == {("param", 1)} and \
+            all(x[0] == "call" and x[1] == "parser::parse" for x in ro.of_operand(news[0]["args"][1])) and bool(ro.of_operand(news[0]["args"][1]))
         ctx.check(ok, rule, "compile-binds-self", "Runtime::compile stores the compiling runtime (self) in the Expression", rc.span)
     sb = ctx.fn("Expression::<'a>::search", rule=rule)
     if sb is not None:
@@ -241,17 +233,15 @@ def check_custom(ctx, lib):
         if ok:
             a = [o.of_operand(x) for x in v[0][1]["args"]]
             ok = a[0] == {("field", ("param", 1), "signature")} and a[1] == {("param", 2)} and a[2] == {("param", 3)}
-            cont = None
-            for bb, t in b.calls():
-                if t["callee"] == "std::ops::Try::branch" and all(x[0] == "call" and x[1] == "functions::Signature::validate" for x in o.of_operand(t["args"][0])):
-                    ve = br.variant_edges(t["t"])
-                    if ve and "Continue" in ve["edges"]:
-                        cont = (t["t"], ve["edges"]["Continue"])
+            se = success_edge(b, o, br, lambda ts: all(x[0] == "call" and x[1] == "functions::Signature::validate" for x in ts))
+            cont = (se[0], se[1]) if se else None
             ok = ok and cont is not None and edge_dominates(b, cont, inv[0][0])
             ia = [o.of_operand(x) for x in inv[0][1]["args"]]
             ok = ok and ia[0] == {("field", ("param", 1), "f")} and \
                 all(t[0] == "agg" and t[1] == "tuple" and t[2] == (fs({("param", 2)}), fs({("param", 3)})) for t in ia[1])
-            ok = ok and inv[0][1]["dest"]["l"] == 0
+            # its result is what evaluate returns on that side (tail call, or moved into the return place)
+            rets = o.of_local(0)
+            ok = ok and (inv[0][1]["dest"]["l"] == 0 or any(t[0] == "call" and t[1] == inv[0][1]["callee"] for t in rets))
         ctx.check(ok, rule, "validated-then-invoked", "CustomFunction: signature.validate(args, ctx)? dominates the invocation of the stored closure with the same (args, ctx); its result is returned", b.span)
     f = ctx.fn("<F as functions::Function>::evaluate", rule=rule)
     if f is not None:
